@@ -570,6 +570,12 @@ class CppMachine:
                         return self.trunc_product(a, b, bits)
                     return v
                 return self.wrap(v, bits, e)
+            if op in ('<', '<=', '>', '>=', '==', '!=') and ((strip(e['lhs']).get('t') or {}).get('k') == 'ptr' or (strip(e['rhs']).get('t') or {}).get('k') == 'ptr'):
+                pa, pb = self.pointer(st, e['lhs']), self.pointer(st, e['rhs'])
+                if pa[0] != pb[0]:
+                    raise Unsupported('comparison of pointers into different objects at %s' % loc_str(e))
+                r = {'<': pa[1] < pb[1], '<=': pa[1] <= pb[1], '>': pa[1] > pb[1], '>=': pa[1] >= pb[1], '==': pa[1] == pb[1], '!=': pa[1] != pb[1]}[op]
+                return ZPoly.const(1 if r else 0)
             if op in ('<', '<=', '>', '>=', '==', '!='):
                 a, b = self.eval(st, e['lhs']), self.eval(st, e['rhs'])
                 r = self.decide_cmp(st, op, a, b)
@@ -600,8 +606,26 @@ class CppMachine:
                 for (x, y) in ((a, b), (b, a)):
                     if y.is_const():
                         m = y.const_value()
+                        if m < 0 and bits:
+                            m %= (1 << bits)
                         if m >= 0 and (m & (m + 1)) == 0:
                             return self.trunc(x, m.bit_length())
+                        if m >= 0 and self.rng(x)[0] >= 0:
+                            # a general constant mask: the sum of the fields it selects
+                            top = self.rng(x)[1].bit_length()
+                            out = ZPoly()
+                            pos = 0
+                            while pos < top:
+                                if (m >> pos) & 1:
+                                    end_ = pos
+                                    while (m >> end_) & 1 and end_ < top:
+                                        end_ += 1
+                                    hi_ = self.split(x, pos)[1] if pos else x
+                                    out = out + self.split(hi_, end_ - pos)[0] * (1 << pos)
+                                    pos = end_
+                                else:
+                                    pos += 1
+                            return out
                 raise Unsupported('bitwise and at %s' % loc_str(e))
             if op in ('&&', '||'):
                 raise Unsupported('logical operator as a value at %s' % loc_str(e))
@@ -628,6 +652,12 @@ class CppMachine:
         if k == 'un' and e.get('op') in ('++', '--'):
             l = strip(e['e'])
             cur = st.fr.vars.get(l.get('id')) if l.get('k') == 'ref' else None
+            if isinstance(cur, tuple) and cur[0] == 'obj' and (l.get('t') or {}).get('k') == 'ptr':
+                esz = ((l['t'].get('pointee') or {}).get('size')) or 0
+                if not esz:
+                    raise Unsupported('pointer step over an incomplete type at %s' % loc_str(e))
+                st.fr.vars[l['id']] = ('obj', cur[1], cur[2] + (esz if e['op'] == '++' else -esz))
+                return ZERO
             if not isinstance(cur, ZPoly):
                 raise Unsupported('increment of a non-local at %s' % loc_str(e))
             new_ = cur + (1 if e['op'] == '++' else -1)
@@ -836,6 +866,20 @@ class CppMachine:
         if k == 'constexpr_if':
             return self.exec(st, s.get('taken'))
         if k == 'decl':
+            if len(s['vars']) == 1 and (s['vars'][0].get('t') or {}).get('k') == 'bool' and s['vars'][0].get('init') is not None:
+                # a boolean local: one state per outcome of its initialiser
+                v = s['vars'][0]
+                try:
+                    self.decl(st, v)
+                    return [st]
+                except Unsupported as ex:
+                    if 'undecided comparison' not in str(ex):
+                        raise
+                outs = []
+                for (r, s2) in self.cond(st, v['init']):
+                    s2.fr.vars[v['id']] = ZPoly.const(1 if r else 0)
+                    outs.append(s2)
+                return outs
             for v in s['vars']:
                 self.decl(st, v)
             return [st]
@@ -912,6 +956,33 @@ class CppMachine:
                                 nxt += self.expr_stmt(y, s['inc'])
                             else:
                                 nxt.append(y)
+                sts = self.merge(nxt)
+                if not sts:
+                    return self.merge(done)
+                if len(sts) + len(done) > self.max_states:
+                    raise Unsupported('state explosion in loop at %s' % loc_str(s))
+            raise Unsupported('loop bound at %s' % loc_str(s))
+        if k in ('while', 'do') and id(s) in getattr(self, 'loop_summaries', {}):
+            return self.loop_summaries[id(s)](st)
+        if k in ('while', 'do'):
+            # unrolled like `for`: every iteration's condition must be decided or forked on
+            if any(x.get('k') in ('break', 'continue') for x in walk(s['body'])):
+                raise Unsupported('break / continue in a loop at %s' % loc_str(s))
+            sts = [st]
+            done = []
+            first = (k == 'do')
+            for _ in range(5000):
+                nxt = []
+                for x in sts:
+                    if x.fr.returned:
+                        done.append(x)
+                        continue
+                    for (r, x2) in ([(True, x)] if first else self.cond(x, s['c'])):
+                        if not r:
+                            done.append(x2)
+                            continue
+                        nxt += self.exec(x2, s['body'])
+                first = False
                 sts = self.merge(nxt)
                 if not sts:
                     return self.merge(done)
@@ -1093,6 +1164,9 @@ class CppMachine:
         if k == 'un' and e.get('op') in ('++', '--'):
             l = strip(e['e'])
             cur = st.fr.vars.get(l.get('id'))
+            if isinstance(cur, tuple) and cur[0] == 'obj' and (l.get('t') or {}).get('k') == 'ptr':
+                self.eval(st, e)
+                return [st]
             if not isinstance(cur, ZPoly):
                 raise Unsupported('increment at %s' % loc_str(e))
             st.fr.vars[l['id']] = cur + (1 if e['op'] == '++' else -1)
